@@ -25,6 +25,7 @@ type stream struct {
 	prevOf    map[uint64]string // index -> prev value returned by Apply
 	afterRest bool              // a restore happened and no apply since
 	restIdx   uint64
+	firstRestIdx uint64 // index of the first snapshot this incarnation's FSM was restored from
 	userBase  uint64 // burned index of the last user restore seen by this stream
 }
 
@@ -98,6 +99,7 @@ type server struct {
 	burned                  uint64
 	lastStartSeq            uint64
 	trailing                uint64
+	img       startImg
 	startTerm, startMaxTerm uint64 // durable term / largest reported term when the current incarnation was created
 	installedMax            uint64 // largest index of a snapshot this server installed from a leader
 	electNotCandTerm        uint64 // term of an election this server started while its state was not Candidate
